@@ -73,8 +73,9 @@ def body_lines(syms: list[str], prefix: str) -> list[dict] | None:
             out.append({"stmt": ["pad", "void3"], "comment": None, "src": ["void3"]})
         elif s in ("K", "K#"):
             name = "%sK%d" % (prefix.upper(), i)
-            out.append({"stmt": ["const", "saturated uint8", name, i + 1 + voff], "comment": c if s == "K#" else None, "src": ["uint8", name, "=", str(i + 1 + voff)]})
-            last_const = (name, i + 1 + voff)
+            val = (i + voff) % 200 + 1  # stays within uint8 for bodies of any length (identical to i + 1 + voff for short ones)
+            out.append({"stmt": ["const", "saturated uint8", name, val], "comment": c if s == "K#" else None, "src": ["uint8", name, "=", str(val)]})
+            last_const = (name, val)
         elif s == "Kf":
             name = "%sF%d" % (prefix.upper(), i)
             out.append({"stmt": ["const", "saturated float64", name, {"q": [i + 1 + voff, 3] if (i + 1 + voff) % 3 else [10 * (i + 1 + voff) + 1, 30]}], "comment": None, "src": ["float64", name, "=", "%d" % (i + 1 + voff if (i + 1 + voff) % 3 else 10 * (i + 1 + voff) + 1), "/", "3" if (i + 1 + voff) % 3 else "30"]})
@@ -249,6 +250,7 @@ def plan(tier: str):
         for f in frames(tier, "basic"):
             shards.append({"syms": "mid", "maxlen": 2, "minlen": 0, "frame": f, "variants": EOF_VARIANTS, "service": True})
     shards += H.plan_shards(['nested-revisions'])
+    shards += [{"kind": "scale", "part": p, "parts": 8} for p in range(8)]
     return shards
 
 
@@ -265,6 +267,11 @@ def histories(syms, minlen, maxlen, first=None, second=None):
 def cases(shard, tier):
     if shard.get("kind") == "call-histories":
         yield from H.cases_of(shard)
+        return
+    if shard.get("kind") == "scale":
+        for i, c in enumerate(scale_cases(tier)):
+            if i % shard["parts"] == shard["part"]:
+                yield c
         return
     syms = {"full": SYMS_FULL, "small": SYMS_SMALL, "mid": SYMS_MID}[shard["syms"]]
     vs = shard["variants"]
@@ -315,7 +322,55 @@ def _diff_fingerprint(exp: dict, act: dict, variant: str, lines) -> tuple[str, s
     return "model-mismatch", "model equals reference"
 
 
+# ---------------------------------------------------------------------------------------------------------------
+# scale: definitions of dozens of documented attributes (more lines than any chunk size), services with dozens of same-named constants,
+# files larger than the I/O block sizes whose line endings / multi-byte characters sit exactly on a block boundary
+def scale_cases(tier):
+    basic = {"header": 1, "union": False, "deprecated": False, "mode": "sealed-last"}
+    for n in (20, 33, 40, 70, 130):
+        body = []
+        for i in range(n):
+            body += [["F#", "K#", "F", "Kx" if i > 3 else "K"][i % 4], "C"] + (["C"] if i % 3 == 0 else []) + (["E"] if i % 5 == 0 else [])
+        yield {"frame": basic, "body": body, "resp": None, "variants": ["lf", "crlf", "lf-noeol", "blanks"]}
+    for n in (8, 9, 16, 17, 20, 40):
+        body = ["K"] * n + ["Kx", "F", "Kx"]
+        yield {"frame": {"header": 0, "union": False, "deprecated": False, "mode": "sealed-last"}, "body": body, "resp": list(body), "variants": ["lf", "crlf-noeol"]}
+        yield {"frame": {"header": 1, "union": False, "deprecated": False, "mode": "sealed-first"}, "body": ["K#", "C"] * n + ["Kx"], "resp": ["K"] * n + ["Kx", "Kx"], "variants": ["lf"]}
+    from ..gen import scale as S
+
+    bs = S.BOUNDARIES if tier != "quick" else S.BOUNDARIES[:5]
+    for b in bs:
+        for what, eol in (("crlf", "\r\n"), ("cr", "\r"), ("utf8-2", "\n"), ("utf8-3", "\r\n"), ("utf8-4", "\r")):
+            yield {"kind": "scale-file", "boundary": b, "what": what, "eol": eol}
+
+
+def check_scale_file(case, R: engine.Acc) -> None:
+    from ..gen import scale as S
+
+    tail = ["uint8 a # doc of a", "# continued", "", "# dropped", "uint16 B = 7 # doc of B", "@sealed"]
+    text, first = S.straddling_text(case["boundary"], case["what"], tail, case["eol"])
+    R.case(case, nontrivial=True, sample=False)
+    R.state([case["boundary"], case["what"]])
+    R.traces += 1
+    o = api.read_namespace_tree({"rns/T.1.0.dsdl": text.encode("utf-8")}, ROOT)
+    if o.error is not None:
+        R.violation("valid-definition-rejected:large-file:%s" % o.error["cls"], "every valid definition is accepted", case, observed=o.error)
+        return
+    t = [x for x in o.types if x["full_name"] == "rns.T"][0]
+    lines = text.replace("\r\n", "\n").replace("\r", "\n").split("\n")
+    header = "\n".join((l[2:] if l.startswith("# ") else l[1:]) for l in lines[: first - 1])
+    got = {"doc": t["doc"], "attrs": [[a["name"], a["doc"]] for a in t["attributes"]]}
+    exp = {"doc": header, "attrs": [["a", "doc of a\ncontinued"], ["B", "doc of B"]]}
+    if got != exp:
+        where = "header" if got["doc"] != exp["doc"] else "attribute"
+        R.violation("comment-attachment:large-file:" + where, "the model mirrors the source text wherever the file's line endings and multi-byte characters fall", case, observed={"doc_length": len(got["doc"]), "doc_tail": got["doc"][-80:], "attrs": got["attrs"]}, expected={"doc_length": len(exp["doc"]), "doc_tail": exp["doc"][-80:], "attrs": exp["attrs"]})
+    else:
+        R.outcome("match")
+
+
 def check_case(case, R: engine.Acc) -> None:
+    if case.get("kind") == "scale-file":
+        return check_scale_file(case, R)
     if case.get("kind") == "call-history":
         return H.check_history(case["label"], R, H.project_full, 'model-depends-on-earlier-calls', 'the model mirrors the source text of THIS call')
     lines = program_lines(case)
